@@ -702,6 +702,8 @@ def plan(ctx: Ctx):
 
 
 def run(ctx: Ctx):
+    from vf.prove import prove
+    prove(ctx, ["specs.helpers"], "C10")  # deductive part (specs/helpers.py)
     from vf.pool import pmap
     from oracles import assignment as A
     use_repo()
